@@ -6,8 +6,9 @@ from __future__ import annotations
 import ast
 import re
 
-from ..astutil import call_attr, calls_in, guard_facts, unparse, walk_local
+from ..astutil import call_attr, calls_in, guard_facts, norm_facts, text_facts, unparse, walk_local
 from ..cfg import CFG
+from ..dataflow import resolved_text
 from ..report import Finding, Report
 from ..srcindex import AnalysisError, Index, raw_funcs
 
@@ -15,6 +16,12 @@ LICM = "xdsl/transforms/loop_invariant_code_motion.py"
 CFH = "xdsl/transforms/control_flow_hoist.py"
 UNROLL = "xdsl/transforms/scf_for_loop_unroll.py"
 RF = "xdsl/transforms/scf_for_loop_range_folding.py"
+
+
+def cfg_after(cfg: CFG, moves: list, c: ast.Call) -> bool:
+    """`c` can run after one of the move calls"""
+    nc = cfg.node_of(c)
+    return any(nc in cfg.reachable(cfg.node_of(m)) for m in moves)
 
 
 def check(idx: Index, rep: Report, tier: str) -> str:
@@ -37,15 +44,38 @@ def check(idx: Index, rep: Report, tier: str) -> str:
         else:
             r.ok(inst, f"{LICM}:{c.lineno} under {sorted(need)}")
     g = idx.func(LICM, "can_be_hoisted")
-    t = unparse(g.node)
-    tr = g.node.args.args[1].arg
-    ok = ("if op.has_trait(IsTerminator):\n        return False" in t) and "for child in op.walk():" in t and "for operand in child.operands:" in t and f"if {tr}.is_ancestor(operand_owner):\n                return False" in t and "if op.is_ancestor(operand_owner):\n                continue" in t
-    (r.ok(g.fq, f"{g.loc} terminators and ops with an operand (own or nested) defined under the loop are refused") if ok else r.fail(g.fq, Finding("C16.R1", g.fq, "hoistability-test", "can_be_hoisted must refuse terminators and every op (including nested ones) with an operand defined inside the loop region, ignoring values defined inside the op itself", g.loc)))
-    # after a move, users inside the loop are reconsidered
-    if "worklist.append(user)" in unparse(f.node) and "if op.parent_region() != region:\n            continue" in unparse(f.node):
+    from ..paths import refusals
+
+    opn, tr = g.node.args.args[0].arg, g.node.args.args[1].arg
+    refs = refusals(g.node)
+    if refs is None:
+        raise AnalysisError(f"{g.fq}: the ways this predicate answers False could not be summarised")
+    term = any(ch == () and ((f"{opn}.has_trait(IsTerminator)", True) in fs or (f"{opn}.has_trait(IsTerminator())", True) in fs) for ch, fs in refs)
+    dep = any(ch == (("_v0", f"{opn}.walk()"), ("_v1", "_v0.operands")) and (f"{tr}.is_ancestor(_v1.owner)", True) in fs and fs - {(f"{tr}.is_ancestor(_v1.owner)", True)} <= {(f"{opn}.is_ancestor(_v1.owner)", False), (f"{opn}.has_trait(IsTerminator)", False)} for ch, fs in refs)
+    ok = term and dep
+    (r.ok(g.fq, f"{g.loc} terminators and ops with an operand (own or nested) defined under the loop are refused") if ok else r.fail(g.fq, Finding("C16.R1", g.fq, "hoistability-test", f"can_be_hoisted must refuse terminators and every op (including nested ones) with an operand defined inside the loop region, ignoring values defined inside the op itself (refusals found: {[(c_, sorted(f_)) for c_, f_ in refs][:3]})", g.loc)))
+    # after a move, users inside the loop are reconsidered; operations already moved out are skipped
+    from ..setbuild import describe as describe_set
+
+    fcfg = CFG(f.node)
+    reg = f.node.args.args[0].arg
+    requeue = False
+    for c in calls_in(f.node):
+        if call_attr(c) in ("append", "extend") and unparse(c.func.value) == "worklist" and c.args and cfg_after(fcfg, moves, c):  # type: ignore[attr-defined]
+            if call_attr(c) == "append":
+                facts = {(t_, p_) for t_, p_ in norm_facts(text_facts(f.node, c))}
+                ut = resolved_text(fcfg, c.args[0], fcfg.node_of(c))
+                if re.fullmatch(r"\w+\.operation", ut) and ((f"{ut}.parent_region() == {reg}", True) in facts):
+                    requeue = True
+            else:
+                d_ = describe_set(f.node, fcfg, c.args[0], fcfg.node_of(c))
+                if not d_.unknown and len(d_.adds) == 1 and re.fullmatch(r"\w+\.operation", d_.adds[0].elem) and any(re.fullmatch(rf"\w+\.operation\.parent_region\(\) == {reg}", t_) and p_ for t_, p_ in d_.adds[0].facts) and [it for _, it in d_.adds[0].iters] == ["op.results", d_.adds[0].iters[0][0] + ".uses"]:
+                    requeue = True
+    skips = any((f"op.parent_region() == {reg}", False) in norm_facts(text_facts(f.node, n_)) for n_ in walk_local(f.node) if isinstance(n_, ast.Continue)) or all((f"op.parent_region() == {reg}", True) in norm_facts(text_facts(f.node, c)) for c in moves)
+    if requeue and skips:
         r.ok(f.fq + ":worklist", f"{f.loc} users of hoisted ops re-examined; already moved ops skipped")
     else:
-        r.fail(f.fq + ":worklist", Finding("C16.R1", f.fq, "worklist", "LICM worklist bookkeeping changed", f.loc))
+        r.fail(f.fq + ":worklist", Finding("C16.R1", f.fq, "worklist", f"LICM worklist bookkeeping: users of a hoisted operation inside the loop re-queued: {requeue}; operations no longer in the loop region skipped: {skips}", f.loc))
 
     r = rep.rule("C16.R2", "control-flow hoisting clones out of a conditional only when the conditional is speculatable and side-effect free, and never hoists terminators", floor=3)
     h = idx.func(CFH, "hoist_all")
